@@ -143,10 +143,22 @@ def static_obligations(chk, logics):
                              for vs, r in rows if not r.startswith('!'))
             exprs.append(f'gen_rows_bad ML_{i} {g} {side} {lit}')
             meta.append(('gen', L, kind))
-            if any(r.startswith('!') for _, r in rows):
-                chk.violation(f'generaliser:{L["name"]}:{kind}:raises',
-                              f'{L["name"]}: evaluating {kind} raised on a value list',
-                              dict(kind='generaliser', logic=L['name'], op=kind), found_input=False)
+            for vs, r in rows:
+                if not r.startswith('!'):
+                    continue
+                if kind in mlib.QUANTS:
+                    ops = [['pred', 0, mlib.F1, [mlib.c(k)], x] for k, x in enumerate(vs)]
+                    sent = ['Q', kind, 0, mlib.P(mlib.F1, mlib.v(0))]
+                else:
+                    ops = [o for k, x in enumerate(vs) for o in (['access', 0, 10 + k], ['atomic', 10 + k, 0, x])]
+                    sent = ['M', kind, mlib.A0]
+                hang = r == '!Hang'
+                chk.violation(f'nontermination:finish-or-value_of:{L["access"]}' if hang else f'generaliser:{L["name"]}:{kind}:raises',
+                              f'{L["name"]}: building the model {ops} and evaluating {sent} '
+                              f'{"did not return within the time limit" if hang else "raised " + r[1:]}',
+                              dict(kind='case', logic=L['name'], ops=ops, sentence=sent, world=0, order=0,
+                                   clause='terminates'), found_input=True)
+                break
         for kind in ('q', 'm'):
             comb = L['hooks']['value_of_quantified' if kind == 'q' else 'value_of_operated']
             if comb in ('k3wq', 'kk3wq'):
@@ -464,7 +476,7 @@ def replay(path: str) -> int:
     if clause == 'raise':
         bad = res['err'] == rep.get('impl')      # still the recorded deviant behaviour
         print(f'replay: ops {rep["ops"]} -> err {res["err"]}')
-    elif res['err'] is not None:
+    elif res['err'] is not None and clause != 'terminates':
         print(f'replay: raised {res["err"]}')
         bad = False
     elif clause == 'value_of':
@@ -490,6 +502,9 @@ def replay(path: str) -> int:
         found = [b for b in classical_clauses(res['dump'], L['modal']) if b[0] == clause]
         print(f'replay: {clause}: {found[:3]}')
         bad = bool(found)
+    elif clause == 'terminates':
+        bad = res['err'] is not None or 7 in res['vals'][0] or 8 in res['vals'][0]
+        print(f'replay: err={res["err"]} value={res.get("vals")}')
     elif clause == 'retained':
         chk = Check(PID, 'quick', 0)
         check_case(chk, L, tf[L['name']]['tables'], case, res, (0, (res['aw'], res['ap']), (res['fkeys'], res['dump']['consts']), res['vals']), rep.get('order', 0))
